@@ -16,3 +16,4 @@ for i in range(n):
 print("total",tot,"not proved",len(bad))
 for o in bad[:40]: print("  ",o['verdict'],o['ms'],o['name'])
 PY
+rm -f /tmp/rw_$$_*.json
